@@ -218,7 +218,8 @@ class Scn:
         self.model = [l.split() for l in mout.split("\n") if l.strip()]
         self.model_rc, self.model_err = rc2, merr[-600:]
         # oracle
-        oq = [x for x in qs if x.startswith("chi ") or x.startswith("chiz ")]
+        # the oracle does not depend on the purge flag: ask it once per quadruple
+        oq = [x for x in qs if (x.startswith("chi ") and x.split()[5] == "0" and x.split()[6] != "0") or x.startswith("chiz ")]
         r = edlib.run(self.text, oq, variant=self.variant, timeout=900)
         self.oracle = r.oracle
         self.cert = r.cert
@@ -302,7 +303,7 @@ def check_scenario(chk, s, h, d, first):
             return 1e-11 * s0 + 1e-16 * s2 + (3e-8 * s1 if straddle else 1e-13 * s1) + 1e-300, s0
         # ---- Matsubara triples: on-demand, table (purge off/on), model, oracle ------------------------------------
         for ci, clear in ((2 * qi, 0), (2 * qi + 1, 1)):
-            ti, tm, to = impl_chi[ci], mod_chi[ci], or_chi[ci]
+            ti, tm, to = impl_chi[ci], mod_chi[ci], or_chi[qi]
             tsize = int(ti[8])
             for f, tr in enumerate(s.triples):
                 tol, s0 = tol_of(sm, f)
@@ -526,8 +527,13 @@ def generate(chk, variant, families, nq, ntr):
     out = []
     for famfn in families:
         fam, text, M, info = famfn(chk.rng)
-        quads = quads_for(chk.rng, M, nq)
-        triples = list(SPECIAL[:max(3, ntr // 2)]) + scen.matsubara_triples(chk.rng, ntr - max(3, ntr // 2))
+        nq_, ntr_ = nq, ntr
+        if "symm ignore" in text and M >= 4:
+            # one 16-dimensional block with dense eigenvectors: the full-space oracle costs 6 * 16^4 kernel evaluations per triple
+            nq_, ntr_ = min(nq, 4), min(ntr, 5)
+        quads = quads_for(chk.rng, M, nq_)
+        k = max(3, ntr_ // 2)
+        triples = chk.rng.sample(SPECIAL, k) + scen.matsubara_triples(chk.rng, ntr_ - k)
         off = []
         for _ in range(2):
             off += [complex(chk.rng.choice([0.25, -0.5, 0.75]), chk.rng.choice([0.5, 1.25, -0.75])),
